@@ -132,7 +132,13 @@ pub fn check(cx: &Cx, rep: &mut Report) {
                         continue;
                     }
                     let next = &af.incs[reg_inc + 1];
-                    let Some((s_out, true)) = next.s_out else { continue };
+                    // the previous incarnation is over once its stopped() has returned: from then on its timers must
+                    // be silent (also while the new incarnation is still inside started())
+                    let Some((_, Some(t_out_old))) = af.incs[reg_inc].t else { continue };
+                    let s_out = t_out_old;
+                    if next.s_in == u64::MAX {
+                        continue;
+                    }
                     let boundary_vt = ix.ev[s_out as usize].vt;
                     rep.premise("C07.R5.old_timers_silent");
                     let fired: Vec<(u64, u64)> = if t.kind == "delayed_exec" {
@@ -145,7 +151,7 @@ pub fn check(cx: &Cx, rep: &mut Report) {
                         let fire_vt = t.reg_vt + (n as u64 + 1) * t.dur;
                         let _ = vt;
                         if fire_vt > boundary_vt && *s > s_out {
-                            rep.fail(P, "R5", format!("old_timer_fired;kind={}", t.kind), format!("{} timer {} registered in incarnation {reg_inc} (t={}) fired at t>={fire_vt} (delivery #{} handled at #{s}), after incarnation {} had started at t={boundary_vt}", t.kind, t.id, t.reg_vt, n + 1, reg_inc + 1), vec![t.reg, s_out, *s]);
+                            rep.fail(P, "R5", format!("old_timer_fired;kind={}", t.kind), format!("{} timer {} registered in incarnation {reg_inc} (t={}) fired at t>={fire_vt} (delivery #{} handled at #{s}), after stopped() of that incarnation had returned at t={boundary_vt} (restart into incarnation {})", t.kind, t.id, t.reg_vt, n + 1, reg_inc + 1), vec![t.reg, s_out, *s]);
                             break;
                         }
                     }
